@@ -238,8 +238,8 @@ func diffKind(d string) string {
 }
 
 var (
-	c12BigNicks = []string{"me", "a", "b", "c", "d", "e", "f", "g", ""}
-	c12BigChans = []string{"#1", "#2", "#3", "&4", "#5", ""}
+	c12BigNicks = []string{"me", "a", "b", "c", "d", "e", "f", "g", "", "A", "Me", "B"} // incl. names differing only in letter case
+	c12BigChans = []string{"#1", "#2", "#3", "&4", "#5", "", "#A", "#a"}
 	c12Modes    = []string{"+o", "-o", "+ov", "+v", "-v", "+q", "+a", "+h", "-h", "+k", "-k", "+l", "-l", "+kl", "+s-s", "o", "+Xy", "+ntsk", "+imnprstzZO", "-imnprstzZO", "+lk", "+o-o", "-qaohv", "+", ""}
 	c12NModes   = []string{"+i", "-i", "+Biowxz", "-Biowxz", "o", "+w-w", "+Q", ""}
 	c12Texts    = []string{"", "t1", "another text"}
@@ -337,7 +337,7 @@ func sortedChanSet(m *model.TModel) []string {
 
 func runC12Prng(c *Ctx) {
 	part, parts := c.ArgInt("part", 0), c.ArgInt("parts", 1)
-	total := c.Pick(600, 60_000)
+	total := c.Pick(1500, 100_000)
 	per := total / parts
 	states := map[string]bool{}
 	var skipped int64
